@@ -179,3 +179,126 @@ Proof.
     + split; [|constructor; [exact E2|exact IH2]].
       rewrite <- E1. rewrite <- !app_assoc. reflexivity.
 Qed.
+
+(* ------------------------------------------------------------------ the version 5 header *)
+
+Definition dform_of (p : W.prog) : N := match W.p_dirs p with d0 :: _ => W.lstr_form d0 | [] => 0 end.
+Definition fform_of (p : W.prog) : N := match W.p_files p with f0 :: _ => W.lstr_form (fst (fst f0)) | [] => 0 end.
+
+Definition raw5 (p : W.prog) (ls ss : W.strtab) : raw_header :=
+  let e := W.p_enc p in let l := W.p_lenc p in
+  mk_raw (W.e_fmt64 e) (W.e_version e) (W.e_addr_size e) (W.le_min_len l) (W.le_max_ops l)
+         (W.le_default_is_stmt l) (W.le_line_base l) (W.le_line_range l) 13 W.std_opcode_lengths
+         (dir_fmt5 (dform_of p)) (map (raw_dir5 ls ss) (W.p_dirs p))
+         (file_fmt5 p (fform_of p) (W.source_form (W.p_files p))) (map (raw_file5 p ls ss) (W.p_files p)).
+
+Lemma lstr_form_small d : W.lstr_form d < 16384.
+Proof. destruct d; cbn; unfold W.DW_FORM_string, W.DW_FORM_strp, W.DW_FORM_line_strp; lia. Qed.
+
+Lemma source_form_small : forall fs, W.source_form fs < 16384.
+Proof.
+  induction fs as [|[k info] fs IH]; cbn [W.source_form]; [unfold W.DW_FORM_string; lia|].
+  destruct (W.fi_source info); [apply lstr_form_small|exact IH].
+Qed.
+
+Lemma file_fmts_enc5 p fform sform :
+  fform < 16384 -> sform < 16384 ->
+  [n2b (2 + W.b2N (W.p_has_timestamp p) + W.b2N (W.p_has_size p) + W.b2N (W.p_has_md5 p) + W.b2N (W.p_has_source p))]
+  ++ ([x01] ++ enc_uleb fform ++ [x02; n2b W.DW_FORM_udata]
+      ++ (if W.p_has_timestamp p then [x03; n2b W.DW_FORM_udata] else [])
+      ++ (if W.p_has_size p then [x04; n2b W.DW_FORM_udata] else [])
+      ++ (if W.p_has_md5 p then [x05; n2b W.DW_FORM_data16] else [])
+      ++ (if W.p_has_source p then enc_uleb 8193 ++ enc_uleb sform else []))
+  = enc_fmts (file_fmt5 p fform sform) /\
+  Forall fmt_ok (file_fmt5 p fform sform) /\ len_n (file_fmt5 p fform sform) < 256 /\
+  count_path (file_fmt5 p fform sform) = 1.
+Proof.
+  intros Hf Hs. unfold file_fmt5, enc_fmts.
+  destruct (W.p_has_timestamp p), (W.p_has_size p), (W.p_has_md5 p), (W.p_has_source p);
+    cbn [app map concat ef_ct ef_form W.b2N len_n length];
+    (split; [rewrite ?app_nil_r, <- ?app_assoc; reflexivity|]);
+    (split; [|split; [vm_compute; reflexivity|reflexivity]]).
+  all: repeat constructor; cbn; unfold LNCT_path, LNCT_directory_index, LNCT_timestamp, LNCT_size, LNCT_MD5,
+       LNCT_LLVM_source, FORM_udata, FORM_data16; try lia.
+Qed.
+
+Lemma dir_fmts_enc5 form : form < 16384 ->
+  [x01; x01] ++ enc_uleb form = enc_fmts (dir_fmt5 form) /\
+  Forall fmt_ok (dir_fmt5 form) /\ len_n (dir_fmt5 form) < 256 /\ count_path (dir_fmt5 form) = 1.
+Proof.
+  intros Hf. unfold dir_fmt5, enc_fmts. cbn [map concat ef_ct ef_form len_n length].
+  split; [rewrite app_nil_r; reflexivity|]. split; [|split; [vm_compute; reflexivity|reflexivity]].
+  repeat constructor; cbn; unfold LNCT_path; lia.
+Qed.
+
+(* LineProgram::write for version 5 produces exactly the reference encoding of raw5 *)
+Lemma write_v5 dbg be p unit_enc ls ss prog d0 ds f0 fs :
+  W.e_version (W.p_enc p) = 5 -> 5 <= W.e_version unit_enc ->
+  W.e_addr_size unit_enc = W.e_addr_size (W.p_enc p) ->
+  W.p_dirs p = d0 :: ds -> W.p_files p = f0 :: fs ->
+  Forall (dir5_ok (W.e_fmt64 (W.p_enc p)) ls ss (dform_of p)) (W.p_dirs p) ->
+  Forall (file5_ok p ls ss (fform_of p) (W.source_form (W.p_files p))) (W.p_files p) ->
+  len_n (W.p_dirs p) < two64 -> len_n (W.p_files p) < two64 ->
+  W.insns_write dbg be (W.p_enc p) (W.p_insns p) = Ok prog ->
+  len_n (enc_after_len be (raw5 p ls ss) prog) < (if W.e_fmt64 (W.p_enc p) then two64 else 4294967280) ->
+  W.write dbg be p unit_enc ls ss = Ok (enc_unit be (raw5 p ls ss) prog, ls, ss).
+Proof.
+  intros Hv Huv Hasz Hd Hf Fd Ff Ld Lf Hins Hlen.
+  set (e := W.p_enc p) in *. set (l := W.p_lenc p) in *.
+  assert (Hv5 : 5 <= W.e_version e) by lia.
+  destruct (dirs_write5 dbg be e ls ss (dform_of p) (W.p_dirs p) Hv5 Fd) as [Wd _].
+  destruct (files_write5 dbg be p ls ss (fform_of p) (W.source_form (W.p_files p)) (W.p_files p) Hv5 Ff) as [Wf _].
+  fold e in Wf.
+  pose proof (lstr_form_small d0) as Sd. pose proof (lstr_form_small (fst (fst f0))) as Sf.
+  pose proof (source_form_small (W.p_files p)) as Ss.
+  assert (Edf : dform_of p = W.lstr_form d0) by (unfold dform_of; rewrite Hd; reflexivity).
+  assert (Eff : fform_of p = W.lstr_form (fst (fst f0))) by (unfold fform_of; rewrite Hf; reflexivity).
+  destruct (dir_fmts_enc5 (dform_of p) ltac:(rewrite Edf; exact Sd)) as [Ed _].
+  destruct (file_fmts_enc5 p (fform_of p) (W.source_form (W.p_files p)) ltac:(rewrite Eff; exact Sf) Ss) as [Ef _].
+  unfold W.write. fold e l.
+  destruct (N.ltb_spec (W.e_version unit_enc) 5) as [Hc|_]; [lia|]. cbn [andb].
+  rewrite Hasz, N.eqb_refl. cbn [negb orb].
+  rewrite Hv. change (5 <? 2) with false. change (5 <? 5) with false. change (5 <=? 5) with true.
+  change (4 <=? 5) with true. change (5 <=? 4) with false. cbn [orb bind]. cbv iota.
+  rewrite Hd at 1. cbn [hd_error unwrap bind].
+  rewrite <- Edf. rewrite (write_uleb128_enc (dform_of p)) by (unfold two64; rewrite Edf; lia). cbn [bind].
+  change (N.of_nat (length (W.p_dirs p))) with (len_n (W.p_dirs p)).
+  rewrite (write_uleb128_enc _ Ld). cbn [bind]. rewrite Wd. cbn [bind].
+  rewrite Hf at 1. cbn [hd_error unwrap bind].
+  rewrite <- Eff. rewrite (write_uleb128_enc (fform_of p)) by (unfold two64; rewrite Eff; lia). cbn [bind].
+  rewrite (write_uleb128_enc (W.source_form (W.p_files p))) by (unfold two64; lia). cbn [bind].
+  rewrite (write_uleb128_enc 8193) by (unfold two64; lia). cbn [bind].
+  change (N.of_nat (length (W.p_files p))) with (len_n (W.p_files p)).
+  rewrite (write_uleb128_enc _ Lf). cbn [bind]. rewrite Wf. cbn [bind].
+  (* the header body *)
+  match goal with |- context [write_udata be (N.of_nat (length ?hd)) _] => set (hdr := hd) end.
+  assert (Ehdr : hdr = enc_header_body be (raw5 p ls ss)).
+  { unfold hdr, enc_header_body, raw5.
+    cbn [rh_version rh_min_inst_len rh_max_ops rh_default_is_stmt rh_line_base rh_line_range rh_opcode_base
+         rh_std_lengths rh_dirs rh_files rh_fmt64 rh_dir_fmt rh_file_fmt]. fold e l. rewrite Hv.
+    change (4 <=? 5) with true. change (5 <=? 4) with false. cbv iota.
+    rewrite <- Ed, <- Ef.
+    replace (n2b (W.b2N (W.le_default_is_stmt l))) with (if W.le_default_is_stmt l then x01 else x00)
+      by (destruct (W.le_default_is_stmt l); reflexivity).
+    change (of_signed 8 (W.le_line_base l)) with (Z.to_N (W.le_line_base l mod 256)%Z).
+    unfold W.OPCODE_BASE, len_n. rewrite !map_length. rewrite <- !app_assoc. reflexivity. }
+  clearbody hdr. subst hdr.
+  set (body := enc_header_body be (raw5 p ls ss)) in *.
+  unfold enc_after_len in Hlen. cbn [raw5 rh_version rh_fmt64 rh_addr_size] in Hlen. fold e l in Hlen.
+  rewrite Hv in Hlen. change (5 <=? 5) with true in Hlen. cbv iota in Hlen. fold body in Hlen.
+  unfold len_n in Hlen. rewrite !app_length, enc_fixed_length in Hlen. cbn [length] in Hlen.
+  assert (Hbl : N.of_nat (length body) < (if W.e_fmt64 e then two64 else 4294967296))
+    by (destruct (W.e_fmt64 e); unfold two64 in *; lia).
+  rewrite enc_word_udata by exact Hbl. cbn [bind]. rewrite Hins. cbn [bind].
+  rewrite !enc_un_fixed.
+  match goal with |- context [write_initial_length _ _ (N.of_nat (length ?b))] => set (after := b) end.
+  assert (Eafter : after = enc_after_len be (raw5 p ls ss) prog).
+  { unfold after, enc_after_len. cbn [raw5 rh_version rh_fmt64 rh_addr_size]. fold e l. rewrite Hv.
+    change (5 <=? 5) with true. cbv iota. fold body. unfold len_n. rewrite <- !app_assoc. reflexivity. }
+  rewrite write_initial_length_enc.
+  - cbn [bind]. unfold enc_unit. cbn [raw5 rh_fmt64]. fold e. rewrite Eafter. unfold len_n.
+    rewrite <- !app_assoc. reflexivity.
+  - rewrite Eafter. unfold enc_after_len. cbn [raw5 rh_version rh_fmt64 rh_addr_size]. fold e l. rewrite Hv.
+    change (5 <=? 5) with true. cbv iota. fold body.
+    unfold len_n. rewrite !app_length, enc_fixed_length. cbn [length]. exact Hlen.
+Qed.
